@@ -701,8 +701,9 @@ fn main() {
                 if results.iter().all(|(v, _)| v.get(i) == Some(&first)) {
                     let _ = writeln!(o, "{}", first);
                 } else {
-                    let all: Vec<String> = results.iter().enumerate().map(|(t, (v, _))| format!("t{}={}", t, v.get(i).map(|s| s.chars().take(120).collect::<String>()).unwrap_or_default())).collect();
-                    let _ = writeln!(o, "par-mismatch {}", all.join(" | "));
+                    // every thread's full answer, tab-separated: the monitor decides whether they are the same observation
+                    let all: Vec<String> = results.iter().map(|(v, _)| v.get(i).cloned().unwrap_or_default()).collect();
+                    let _ = writeln!(o, "par-mismatch {}", all.join("\t"));
                 }
             }
             let _ = o.flush();
